@@ -52,7 +52,7 @@ SAN_ENV = {
 }
 
 DEADLINE = {"quick": 75.0, "thorough": 1500.0}   # cooperative, per job
-HARDKILL = {"quick": 300.0, "thorough": 5400.0}  # last resort, per job
+HARDKILL = {"quick": 900.0, "thorough": 5400.0}  # last resort, per job
 
 
 def log(*a):
@@ -391,6 +391,14 @@ def cmd_check(pid, tier, only, jobs, job_filter, flavour_filter=None):
         agg["jobs"].append({"source": jr["run"]["src"], "flavour": jr["run"]["flavour"], "job": jr["job"], "status": jr["status"],
                             "wall_s": round(jr["wall"], 2),
                             "exhaustive": bool(res and res.get("exhaustive"))})
+        if jr["status"] == "timeout":
+            # the last-resort wall-clock limit says the harness was too slow on this machine, not that the
+            # property failed (hangs inside tetl code are caught by the in-process CPU-time watchdog and
+            # reported as violations with the case attached): incomplete, not a violation
+            print("INCOMPLETE property=%s job=%s hit the per-job wall-clock limit of %ds; nothing is claimed for it" % (pid, jr["job"], int(HARDKILL[tier])))
+            agg["exhaustive"] = False
+            agg["notes"].append("%s/%s: killed at the wall-clock limit, not counted" % (jr["run"]["flavour"], jr["job"]))
+            continue
         if res is None or jr["status"] != "ok":
             cls = "process-timeout" if jr["status"] == "timeout" else "process-died"
             tail = ""
